@@ -423,6 +423,10 @@ impl<K: KeyT, V: ValT> World<K, V> {
                 acc.out.res = format!("{} => {:?}", co_out.res, co_out.cur.map(|c| c.p));
                 if co_out.keyless_replace_panicked {
                     acc.probe("replace_key-on-handle-from-entry-insert-panicked-cleanly");
+                    // C12: "every accessor of the handle (.., replace_*) acts on that same
+                    // element", also for the occupied handle an inserting call returned - this
+                    // one panics instead (known finding F1; the map is untouched, the run goes on)
+                    acc.anomaly("keyless-replace-panic", format!("entry({}).insert(v) on an absent key returned an occupied handle whose replace_key()/replace_entry() panicked (unwrap on None) instead of acting on the element", kv));
                 }
                 let slot = &mut self.maps[mi];
                 if co_out.adopt_key {
